@@ -327,6 +327,8 @@ def cmd_filter(argv):
 # ---------------------------------------------------------------------------------- kill with the checks
 def cmd_kill(argv):
     surv = json.load(open(os.path.join(OUT, "survivors.json")))
+    # a deterministic shuffle, so that a run that is stopped early has seen a sample of all files rather than the first ones
+    surv.sort(key=lambda m: hashlib.sha1(("order/" + m["id"]).encode()).hexdigest())
     limit = int(argv[argv.index("--limit") + 1]) if "--limit" in argv else None
     rp = os.path.join(OUT, "results.json")
     res = json.load(open(rp)) if os.path.exists(rp) else {}
@@ -339,7 +341,9 @@ def cmd_kill(argv):
             break
         n += 1
         own = list(anc.get(m["file"], []))
-        ids = own + [c for c in ("C07", "C12") if c not in own]
+        # cheap, broad checks first; the expensive ones (C01, C11, C14) last
+        cost = {"C01": 3, "C11": 4, "C14": 5, "C12": 2, "C07": 2}
+        ids = sorted(own + [c for c in ("C07", "C12", "C20") if c not in own], key=lambda c: (cost.get(c, 1), c))
         base, copy = make_copy(m)
         out = {}
         try:
